@@ -158,15 +158,16 @@ def run(tier):
     # ---- M3a': switching selections inside one session: what is loaded afterwards is what was resolved
     for k in range(2 if tier == "quick" else 8):
         r2 = random.Random(C.seed() * 7 + k)
-        seq = ["en", "en-gb", "qq", "es", "es-mx", "fi", "en", "zh-tw", "en-gb", "en", "sv", "fr", "zh", "vi", "id"]
+        # (every tag twice: a selection must resolve the same the second time, whatever was selected - and missed - in between)
+        seq = ["en", "en-gb", "qq", "es", "es-mx", "fi", "zh-tw", "sv", "fr", "zh", "vi", "id", "zh-cn", "sv-fi"] * 2
         r2.shuffle(seq)
-        ops, meta = [{"op": "set_rules_dir", "dir": "$RULES"}], [None]
+        ops, meta = [{"op": "set_rules_dir", "dir": "$RULES"}, {"op": "set_pref", "name": "SpeechStyle", "value": "ClearSpeak"}], [None, None]
         for i, lt in enumerate(seq):
             cd = real_codes_all[(i + k) % len(real_codes_all)]
             ops += [{"op": "set_pref", "name": "Language", "value": lt}, {"op": "set_pref", "name": "BrailleCode", "value": cd},
                     {"op": "set_mathml", "mathml": "<math><mo>(</mo><mi>x</mi><mo>⫅</mo><mn>1</mn><mo>]</mo></math>"}, {"op": "speech"}, {"op": "braille"},
                     {"op": "prefs_dump"}, {"op": "cache_state"}]
-            meta += [None, None, None, None, None, None, ("loaded", lt, cd)]
+            meta += [None, None, None, None, None, ("sel", rdirs, rfiles, lt, "ClearSpeak", cd, rules_root), ("loaded", lt, cd)]
         scripts.append({"id": f"switching{k}", "ops": ops})
         metas.append(meta)
     # ---- M3b: everything loads and works
@@ -258,6 +259,12 @@ def run(tier):
                            {"script": upto}, text=json.dumps({"reason": reason, "lang": lang, "code": code, "diff": diff}))
             continue
         shipped = root == rules_root
+        if scripts[si]["id"].startswith("switching"):
+            # the selection resolved differently from a fresh session because of what went before: the replay is the session so far
+            history = [o["value"] for o in scripts[si]["ops"][:oi] if o.get("name") == "Language"]
+            verdict.reject(f"{reason}|{lang}|{style}|in-session", f"{reason}: Language={lang} BrailleCode={code} after the selections {history[-6:]} in one session -> {e['res']} {json.dumps(e['got'])[:300]}",
+                           {"script": scripts[si]["ops"][:oi + 1]}, text=json.dumps({"reason": reason, "lang": lang, "code": code, "in_session_after": history[-6:], "got": e["got"]}))
+            continue
         text = f"{reason}: Language={lang} SpeechStyle={style} BrailleCode={code} on {'the shipped Rules' if shipped else 'a generated tree'} -> {e['res']} {json.dumps(e['got'])[:400]}"
         tree_ops = [] if shipped else [{"tree": {"dirs": e["dirs"], "files": e["files"]}}]
         verdict.reject(f"{reason}|{lang}|{style}|{code}|{'shipped' if shipped else S.fp(json.dumps(e['files']))}", text,
